@@ -5,6 +5,7 @@ import (
 	"bytes"
 	"fmt"
 	"io"
+	"strconv"
 	"strings"
 
 	"github.com/gobwas/ws"
@@ -62,7 +63,16 @@ func bigPartition(c *mon.C, n int) []int {
 	return parts
 }
 
-var offsets = []int{0, 1, 2, 3, 4, 5, 6, 7, 8, 9, 10, 11, 65537, 1<<31 + 2, 1<<40 + 3}
+var offsets = func() []int {
+	o := []int{0, 1, 2, 3, 4, 5, 6, 7, 8, 9, 10, 11, 65537, 1<<30 + 1}
+	if strconv.IntSize == 64 {
+		// (int is 32 bits wide in the 386 build pass: the offset of every byte has to be an int)
+		for _, big := range []int64{1<<31 + 2, 1<<40 + 3} {
+			o = append(o, int(big))
+		}
+	}
+	return o
+}()
 
 const canary = 32
 
